@@ -34,10 +34,12 @@ class SplineGroove(GrooveBase):
         if not np.isclose(contour_points[0, 1], 0) or not np.isclose(contour_points[-1, 1], 0):
             raise ValueError("first and last element of contour_points should have y coordinate equal to 0")
 
-        # strip boundary
+        # strip boundary (points on the roll face whose neighbours lie on the face, too)
         contour_points = contour_points[
             np.logical_not(
-                (np.isclose(np.roll(contour_points[:, 1], 1), 0)) & (np.isclose(np.roll(contour_points[:, 1], -1), 0))
+                np.isclose(contour_points[:, 1], 0)
+                & (np.isclose(np.roll(contour_points[:, 1], 1), 0))
+                & (np.isclose(np.roll(contour_points[:, 1], -1), 0))
             )
         ]
 
